@@ -114,13 +114,12 @@ def oracle(case, out):
                 deliveries.append((off, total, ln, eq))
         elif k == "HC":
             code = int(f[1])
-            late = False
+            # after the transfer concluded (final response or NACK given to the application)
+            # a late reply - the answer to a duplicated datagram, or to a request of the
+            # transfer (ETag restart) that was still outstanding - can no longer be mapped
+            # to the application's token
+            late = (success + errors + nacks) > 0 and not case.lossless()
             if f[3] != "T":
-                # after the transfer concluded (final response or NACK given to the application)
-                # a late reply - the answer to a duplicated datagram, or to a request of the
-                # transfer (ETag restart) that was still outstanding - can no longer be mapped
-                # to the application's token
-                late = (success + errors + nacks) > 0 and not case.lossless()
                 bad.append("%s response handler saw token %s, the application's is %s" %
                            ("O3STALE" if late else "O3", f[2], case.tok))
             if code == 95:
@@ -459,3 +458,65 @@ def tie_lines(case, out):
     mx = case.srv_szx if case.srv_szx != 7 else 0
     recv_line = "blkrecv %s %d %d %d %s" % (case.dir, case.len, case.seed, mx, " ".join(toks))
     return wire_line, recv_line, "".join(obs)
+
+
+MAX_TRANSMIT_WAIT_MS = 93000      # ACK_TIMEOUT 2 s, ACK_RANDOM_FACTOR 1.5, MAX_RETRANSMIT 4
+
+
+def timer_line(case, out):
+    """client-side transfer state (lg_xmit of an upload / lg_crcv of a download) against the timed
+    model: progress events = a new block sent (b1) / a new block accepted (b2), checks = every
+    point where the library's timeout functions ran; -> (model line, observed) or (None, None).
+    Only for schedules that lose datagrams (no duplication / reordering), where "new block" is
+    unambiguous."""
+    if case.dir not in ("b1", "b2") or any(c not in ".x" for c in case.sched) or "END:" not in out:
+        return None, None
+    ev = parse(out)
+    fld = 4 if case.dir == "b1" else 3            # ST: client lg_xmit / lg_crcv count
+    now = 1000
+    t0 = None
+    evs = []
+    seen = set()
+    txinfo = {}
+    observed = "alive"
+    alive_seen = False
+    for f in ev:
+        k = f[0]
+        if k == "T":
+            now = int(f[1])
+            if t0 is not None:
+                evs.append("C%d" % now)
+        elif k == "TXc" and f[2] != "UNPARSEABLE":
+            if case.dir == "b1" and f[6] != "-" and int(f[10]) > 0:
+                num = f[6].split("/")[0] + "/" + f[6].split("/")[2]
+                if num not in seen:
+                    seen.add(num)
+                    if t0 is None:
+                        t0 = now
+                    else:
+                        evs.append("P%d" % now)
+        elif k == "TXs" and f[2] != "UNPARSEABLE":
+            txinfo[f[1]] = f
+        elif k == "RX":
+            if t0 is not None:
+                evs.append("C%d" % now)
+            g = txinfo.get(f[1])
+            if case.dir == "b2" and g is not None and g[7] != "-" and g[3] == "69":
+                key = g[7].split("/")[0] + "/" + g[7].split("/")[2] + "/" + (g[13] if len(g) > 13 else "-")
+                if key not in seen:
+                    seen.add(key)
+                    if t0 is None:
+                        t0 = now
+                    else:
+                        evs.append("P%d" % now)
+        elif k == "ST":
+            n = int(f[fld])
+            if n >= 1:
+                alive_seen = True
+            elif alive_seen and observed == "alive":
+                observed = "gone@%d" % now
+        elif k in ("HC", "NK"):
+            break                                   # concluded: the state goes with the transfer
+    if t0 is None or not alive_seen:
+        return None, None
+    return "blktimed %d %d %s" % (MAX_TRANSMIT_WAIT_MS, t0, " ".join(evs)), observed
